@@ -84,7 +84,7 @@ var c17Sizes = []int{0, 1, 30, 60, 63, 64, 65, 120, 127, 128, 129, 250, 256, 500
 
 func c17Run(w *W) {
 	topo := []string{"pubsub", "bus", "star", "survey", "reqrep", "pipeline", "pair"}[w.Choose(simrt.SShape, 7)]
-	tran := []string{"inproc", "sim", "simipc"}[w.Choose(simrt.SShape, 3)]
+	tran := []string{"inproc", "sim", "simipc", "tcp", "ipc", "tls+tcp"}[w.Choose(simrt.SShape, 6)]
 	nrecv := 1 + w.Choose(simrt.SShape, 3)
 	nmsg := 2 + w.Choose(simrt.SShape, 8)
 	w.SetShape("topo", topo)
@@ -138,7 +138,7 @@ func c17Run(w *W) {
 	}
 	w.SetShape("sender", skind)
 	sender = sock(skind)
-	if err := sender.Listen(addr); err != nil {
+	if err := w.ListenOn(sender, addr); err != nil {
 		w.Failf("HARNESS/listen", "%v", err)
 		return
 	}
@@ -147,7 +147,7 @@ func c17Run(w *W) {
 		if rkind == "sub" {
 			mustSet(w, r, mangos.OptionSubscribe, "")
 		}
-		if err := r.Dial(addr); err != nil {
+		if err := w.DialOn(r, addr); err != nil {
 			w.Failf("HARNESS/dial", "%v", err)
 			return
 		}
@@ -339,7 +339,7 @@ func c17ReplyTimeout(w *W) {
 		mustSet(w, s, mangos.OptionSendDeadline, time.Millisecond)
 	}
 	mustSet(w, s, mangos.OptionRecvDeadline, 5*time.Millisecond)
-	if err := s.Listen(addr); err != nil {
+	if err := w.ListenOn(s, addr); err != nil {
 		return
 	}
 	p := mn.Connect(addr)
